@@ -33,7 +33,7 @@ FLOORS["thorough"].update({'rational_clock_programs': 1500})
 PROFILE = {"weights": {"timeout": 6, "zero": 2, "wait": 2, "succeed": 2, "fail": 0.5, "spawn": 2, "join": 2,
                        "interrupt": 3, "cb": 0.5, "cond": 0, "cbint": 0.3, "chain": 0.2},
            "max_top": 5, "max_child_scripts": 3, "max_ev": 3, "p_exact": 0.7, "p_raise": 0.05, "p_catch": 0.85,
-           "t0": [0, 0, 0, 5, 2.5], "p_rational": 0.06}
+           "t0": [0, 0, 0, 5, 2.5], "p_rational": 0.06, "p_inf_delay": 0.01}
 
 
 def plan(tier):
